@@ -20,7 +20,8 @@ RuleTab == [ r1 |-> [type |-> "T1", fld |-> "a", op |-> ">",  c |-> 2, cs |-> ""
              r5 |-> [type |-> "T1", fld |-> "a", op |-> ">=", c |-> 4, cs |-> "", noLoop |-> TRUE],
              r6 |-> [type |-> "T1", fld |-> "a", op |-> "<",  c |-> 6, cs |-> "", noLoop |-> TRUE],
              r7 |-> [type |-> "T2", fld |-> "s", op |-> "==", c |-> 0, cs |-> "A ", noLoop |-> TRUE],     \* literals with whitespace at the edge
-             r8 |-> [type |-> "T2", fld |-> "s", op |-> "!=", c |-> 0, cs |-> " ", noLoop |-> TRUE] ]
+             r8 |-> [type |-> "T2", fld |-> "s", op |-> "!=", c |-> 0, cs |-> " ", noLoop |-> TRUE],
+             r9 |-> [type |-> "T2", fld |-> "a", op |-> ">=", c |-> 4, cs |-> "", noLoop |-> TRUE] ]     \* GRL: T2.n.a >= 2 (n.a always equals a)
 Cmp(op, x, c) == CASE op = ">" -> x > c [] op = "<=" -> x <= c [] op = "==" -> x = c [] op = ">=" -> x >= c [] op = "<" -> x < c
 Sat(r, f) == /\ f.type = RuleTab[r].type
              /\ IF RuleTab[r].fld = "a" THEN Cmp(RuleTab[r].op, f.a, RuleTab[r].c)
@@ -75,6 +76,12 @@ Fire == /\ E.ev = "fire" /\ firing
            /\ dead' = dead \cup (Live(wm) \ Live(W))                          \* facts retracted by earlier actions of this run
         /\ firedRules' = firedRules \cup {E.rule} /\ runFired' = Append(runFired, E.rule)
         /\ UNCHANGED <<maxh, firing, wm0, fired0>> /\ quiet' = {}      \* a firing re-propagates every type
+(* a firing known by rule name only (rules loaded from GRL text: their actions only log, working memory cannot change) *)
+FireN == /\ E.ev = "firen" /\ firing
+         /\ \E f \in wm : Sat(E.rule, f)                                    \* (i) some live fact satisfies the rule now
+         /\ ~(RuleTab[E.rule].noLoop /\ E.rule \in firedRules)
+         /\ firedRules' = firedRules \cup {E.rule} /\ runFired' = Append(runFired, E.rule)
+         /\ UNCHANGED <<wm, maxh, dead, firing, pure, wm0, fired0>> /\ quiet' = {}
 NoLoopRun == {runFired[k] : k \in {j \in DOMAIN runFired : RuleTab[runFired[j]].noLoop}}
 End == /\ E.ev = "end" /\ firing /\ firing' = FALSE
        /\ LET W == SetOf(E.views.wm) IN
@@ -89,7 +96,7 @@ End == /\ E.ev = "end" /\ firing /\ firing' = FALSE
 (* starving whatever is queued behind it; the exactness clause (ii) is therefore applied to runs in which only no-loop  *)
 (* rules fired. Clause (i) applies to every firing of every run.                                                        *)
 Step == /\ h <= NHist /\ i <= Len(Hist[h].events)
-        /\ (Insert \/ Update \/ Retract \/ Reset \/ Begin \/ Fire \/ End)
+        /\ (Insert \/ Update \/ Retract \/ Reset \/ Begin \/ Fire \/ FireN \/ End)
         /\ i' = i + 1 /\ h' = h
 NextHist == /\ h <= NHist /\ i = Len(Hist[h].events) + 1
             /\ h' = h + 1 /\ i' = 1 /\ wm' = {} /\ maxh' = 0 /\ dead' = {} /\ firedRules' = {}
